@@ -10,10 +10,13 @@ LEAN_MODULES = ["Properties.C06V2"]
 THEOREMS = ["EngineModel.Properties.C06V2." + t for t in [
     "v2_C06_setter_spec", "v2_C06_written_rows", "v2_C06_getter_snapshot", "v2_C06_slot_getters_safe",
     "v2_C06_get_set", "v2_C06_frame", "v2_C06_other_track", "v2_C06_step", "v2_C06_history",
-    "v2_C06_obs_is_snapshot", "v2_C06_dbok_empty", "v2_C06_dbok_create"]]
+    "v2_C06_obs_is_snapshot", "v2_C06_dbok_empty", "v2_C06_dbok_create",
+    "v2_C06_model_get_set_frame", "v2_C06_model_slot_frame", "v2_C06_model_derived", "v2_C06_eight_slots",
+    "v2_C06_history_getters", "v2_C06_value_last_set", "v2_C06_statement_level"]]
 ASSUMPTIONS = [
-    "2.x: each setter is modelled as atomic (its statements all succeed or the call throws before writing); partial "
-    "updates under injected faults are C14's subject",
+    "2.x: the lens theorems are stated on Db.set (whole effect or nothing); v2_C06_statement_level proves that the "
+    "statement sequences of track_impl.cpp (EngineModel/TracksV2/Table.lean: SELECT / UPDATE in the C++ order, transaction "
+    "scopes, UNIQUE(path) failures) project onto it; injected I/O faults at arbitrary statements are C14's subject",
     "2.x: rows the setters start from are rows the library stored (cue/loop labels fit the one-byte prefix, length "
     "column readable) - theorem hypothesis DbOk, proved for every table built by create_track; foreign rows are "
     "covered by v2_C06_setter_spec's explicit hypotheses only",
@@ -65,8 +68,7 @@ def gen_history(rng, tier, schema, hid):
         s = G.gen_snapshot(rng, tier, hid * 10 + k, valid_bias=1.0)
         if isinstance(s.get("sample_rate"), str) and s.get("waveform"):
             s["sample_rate"] = 44100.0
-        if s.get("waveform") and (s.get("sample_count") is None or s.get("sample_rate") is None):
-            s["waveform"] = b""
+        G.storable_waveform(s)
         s["relative_path"] = b"lib/%s%d.mp3" % (v.encode(), hid)
         L.append("mktrack %s %s" % (v, G.fmt_snapshot(s)))
     steps = []   # (index of the set line, var, field, valuetext)
